@@ -14,7 +14,7 @@ RULE = ("datasets of 2..4 id-coded samples x class counts 2..4 x shape profiles 
         "(configuration, decoded partner, weight) outcomes")
 
 UNIT = (0.0, 0.29, 0.31, 1 - 1e-9)
-BETA = (0.5, 0.02, 0.25, 0.98)
+BETA = (0.5, 0.02, 0.25, 0.98, 1.0, 0.0)  # a beta draw is exactly 1.0 / 0.0 for small alphas (float64 saturation)
 TOL = 1e-5
 
 SHAPES = {
